@@ -743,9 +743,12 @@ static int load_touchstone1(ts_parser_state_t *tpsp)
 	    tpsp->tps_filename, tpsp->tps_line);
 	return -1;
     }
-    if (tpsp->tps_value_count == 5)
-	goto parse_noise_data;
-
+    if (tpsp->tps_value_count == 5) {
+	_vnadata_error(vdip, VNAERR_SYNTAX, "%s (line %d) error: "
+		"noise data found where network data were expected",
+	    tpsp->tps_filename, tpsp->tps_line);
+	return -1;
+    }
     if (tpsp->tps_parameter_type == VPT_H ||
 	    tpsp->tps_parameter_type == VPT_G) {
 	if (tpsp->tps_value_count != 9) {
